@@ -32,6 +32,7 @@ def synth_klattgrid(nform, pts, xmax, trailing_newline=True, gain_pts=None, xmin
     """KlattGrid text in Praat's long layout (each line ends with a blank, as Praat writes it).
     pts: dict path -> list of (time, value); unspecified tiers have no points."""
     L = []
+    expected = []                     # the leaves the file encodes, in file order: (path, xmin, xmax, points)
     w = lambda s: L.append(s + " ")
     w0 = lambda s: L.append(s)
     L.append('File type = "ooTextFile"')
@@ -54,17 +55,22 @@ def synth_klattgrid(nform, pts, xmax, trailing_newline=True, gain_pts=None, xmin
         w(name + "? <exists>")
         span()
         points(name)
+        expected.append((name, float(xmin), float(xmax), [(float(t), float(v)) for t, v in pts.get(name, [])]))
 
     def header(name):
         w(name + "? <exists>")
         span()
+        if name in ("phonation", "vocalTract", "coupling", "frication"):      # plain sections are leaves without points
+            expected.append((name, float(xmin), float(xmax), []))
 
     def group(container, kind, n):
         w("%s: size = %d" % (kind, n))
         for i in range(1, n + 1):
             w0("%s [%d]:" % (kind, i))
             span("    ")
-            points("%s/%s/%s [%d]" % (container, kind.split("_")[-1] if False else kind, kind, i), "    ")
+            path = "%s/%s/%s [%d]" % (container, kind, kind, i)
+            points(path, "    ")
+            expected.append((path, float(xmin), float(xmax), [(float(t), float(v)) for t, v in pts.get(path, [])]))
 
     span()
     header("phonation")
@@ -103,7 +109,15 @@ def synth_klattgrid(nform, pts, xmax, trailing_newline=True, gain_pts=None, xmin
     simple("bypass")
     simple("gain")
     text = "\n".join(L)
+    synth_klattgrid.last_expected = expected
     return text + ("\n" if trailing_newline else "")
+
+
+def open_event(kg, expected, eid, st="ok"):
+    """the first open of a synthetic file against what the file encodes (growth check X05)"""
+    got = leaves(kg) if kg is not None else []
+    rt = F.RankTable(tree_floats(expected) + tree_floats(got))
+    return {"id": eid, "fam": "klatt", "op": "klattOpen", "args": {"k": 0}, "st": st, "pre": proj_tree(expected, rt), "post": proj_tree(got, rt)}
 
 
 def leaves(kg):
